@@ -50,7 +50,8 @@ HOST_CHAINS_QUICK = (
     ("ck", "www.ck"),                                        # exception rule !www.ck
     ("com", "blogspot.com", "x.blogspot.com"),               # private multi-label suffix
     ("com", "evil.com", "localhost.evil.com"),               # host that merely starts like a special host
-    ("com", "1.com", "2.1.com", "3.2.1.com", "4.3.2.1.com"),  # numeric labels: what is left of the public suffix looks like an IPv4 address
+    ("com", "1.com", "2.1.com", "3.2.1.com", "4.3.2.1.com"),
+    ("localhost", "api.localhost", "v1.api.localhost"),      # names under a special host  # numeric labels: what is left of the public suffix looks like an IPv4 address
 )
 HOST_CHAINS_THOROUGH = HOST_CHAINS_QUICK + (
     ("jp", "kawasaki.jp", "city.kawasaki.jp", "a.kawasaki.jp", "b.a.kawasaki.jp"),   # *.kawasaki.jp + !city.kawasaki.jp
